@@ -12,6 +12,7 @@ the renamed expression always parses, to the renamed tree up to the same-operato
 property's module; it is audited separately and reported as "not checked" when it does not build.
 -/
 namespace SamVerif.FmtFull
+open SamVerif.Fmt (BinOp UOp)
 
 mutual
 /-- relabel identifier atoms by `f` and binder texts (let patterns, case patterns, lambda
@@ -49,6 +50,192 @@ tree (up to `regroup`). -/
 theorem renamed_roundtrip (f g : Nat → Nat) (e : Expr) :
     parseE (printE (e.relabel f g)) = some (regroup (e.relabel f g)) :=
   roundtrip_expr_total (e.relabel f g)
+
+/-! ### renaming commutes with the formatter's regrouping -/
+
+theorem relabel_prec (f g : Nat → Nat) (e : Expr) : (e.relabel f g).prec = e.prec := by
+  cases e <;> simp [Expr.relabel, Expr.prec]
+
+theorem relabel_shortcutOk (f g : Nat → Nat) (o : BinOp) (r : Expr) :
+    shortcutOk o (r.relabel f g) = shortcutOk o r := by
+  cases r <;> simp [Expr.relabel, shortcutOk, relabel_prec]
+
+theorem relabel_usesShortcut (f g : Nat → Nat) (o : BinOp) (l r : Expr) :
+    usesShortcut o (l.relabel f g) (r.relabel f g) = usesShortcut o l r := by
+  simp [usesShortcut, relabel_prec, relabel_shortcutOk]
+
+def relabelCtx (f g : Nat → Nat) (ctx : Option (BinOp × Expr)) : Option (BinOp × Expr) :=
+  ctx.map fun c => (c.1, c.2.relabel f g)
+
+theorem wrapCtx_relabel (f g : Nat → Nat) (ctx : Option (BinOp × Expr)) (x : Expr) :
+    wrapCtx (relabelCtx f g ctx) (x.relabel f g) = (wrapCtx ctx x).relabel f g := by
+  cases ctx <;> simp [wrapCtx, relabelCtx, Expr.relabel]
+
+mutual
+theorem rg_relabel (f g : Nat → Nat) :
+    ∀ (e : Expr) (ctx : Option (BinOp × Expr)),
+      rg (relabelCtx f g ctx) (e.relabel f g) = (rg ctx e).relabel f g
+  | .atom a, ctx => by simp only [Expr.relabel, rg]; exact wrapCtx_relabel f g ctx (.atom a)
+  | .tuple e es, ctx => by
+    have h1 := rg_relabel f g e none
+    have h2 := rgArgs_relabel f g es
+    simp only [relabelCtx, Option.map_none] at h1
+    simp only [Expr.relabel, rg, h1, h2]
+    exact wrapCtx_relabel f g ctx (.tuple (rg none e) (rgArgs es))
+  | .block b, ctx => by
+    have h := rgBlk_relabel f g b
+    simp only [Expr.relabel, rg, h]
+    exact wrapCtx_relabel f g ctx (.block (rgBlk b))
+  | .post e p fld, ctx => by
+    have h1 := rg_relabel f g e none
+    simp only [relabelCtx, Option.map_none] at h1
+    simp only [Expr.relabel, rg, h1]
+    exact wrapCtx_relabel f g ctx (.post (rg none e) p fld)
+  | .call0 fn, ctx => by
+    have h1 := rg_relabel f g fn none
+    simp only [relabelCtx, Option.map_none] at h1
+    simp only [Expr.relabel, rg, h1]
+    exact wrapCtx_relabel f g ctx (.call0 (rg none fn))
+  | .call fn args, ctx => by
+    have h1 := rg_relabel f g fn none
+    have h2 := rgArgs_relabel f g args
+    simp only [relabelCtx, Option.map_none] at h1
+    simp only [Expr.relabel, rg, h1, h2]
+    exact wrapCtx_relabel f g ctx (.call (rg none fn) (rgArgs args))
+  | .unary u e, ctx => by
+    have h1 := rg_relabel f g e none
+    simp only [relabelCtx, Option.map_none] at h1
+    simp only [Expr.relabel, rg, h1]
+    exact wrapCtx_relabel f g ctx (.unary u (rg none e))
+  | .ifElse c t e, ctx => by
+    have h1 := rg_relabel f g c none
+    have h2 := rgBlk_relabel f g t
+    have h3 := rgBlk_relabel f g e
+    simp only [relabelCtx, Option.map_none] at h1
+    simp only [Expr.relabel, rg, h1, h2, h3]
+    exact wrapCtx_relabel f g ctx (.ifElse (rg none c) (rgBlk t) (rgBlk e))
+  | .matchE m cs, ctx => by
+    have h1 := rg_relabel f g m none
+    have h2 := rgCases_relabel f g cs
+    simp only [relabelCtx, Option.map_none] at h1
+    simp only [Expr.relabel, rg, h1, h2]
+    exact wrapCtx_relabel f g ctx (.matchE (rg none m) (rgCases cs))
+  | .lambda k b, ctx => by
+    have h1 := rg_relabel f g b none
+    simp only [relabelCtx, Option.map_none] at h1
+    simp only [Expr.relabel, rg, h1]
+    exact wrapCtx_relabel f g ctx (.lambda k (rg none b))
+  | .binary o' a b, ctx => by
+    have ha := rg_relabel f g a none
+    have hb := rg_relabel f g b none
+    simp only [relabelCtx, Option.map_none] at ha hb
+    cases ctx with
+    | none =>
+      have hb' := rg_relabel f g b (some (o', rg none a))
+      simp only [relabelCtx, Option.map_some, ha] at hb'
+      simp only [Expr.relabel, rg, relabelCtx, Option.map_none, relabel_usesShortcut]
+      by_cases hs : usesShortcut o' a b = true
+      · simp only [hs, if_true, ha]; exact hb'
+      · simp only [hs, ha, hb]; simp [Expr.relabel]
+    | some c =>
+      obtain ⟨o, acc⟩ := c
+      have hb' := rg_relabel f g b (some (o, .binary o acc (rg none a)))
+      simp only [relabelCtx, Option.map_some, Expr.relabel, ha] at hb'
+      simp only [Expr.relabel, rg, relabelCtx, Option.map_some, relabel_usesShortcut]
+      by_cases hs : usesShortcut o a b = true
+      · simp only [hs, if_true, ha]; exact hb'
+      · simp only [hs, ha, hb]; simp [Expr.relabel]
+theorem rgArgs_relabel (f g : Nat → Nat) : ∀ (as : Args), rgArgs (as.relabel f g) = (rgArgs as).relabel f g
+  | .one e => by
+    have h := rg_relabel f g e none
+    simp only [relabelCtx, Option.map_none] at h
+    simp only [Args.relabel, rgArgs, h]
+  | .cons e rest => by
+    have h := rg_relabel f g e none
+    simp only [relabelCtx, Option.map_none] at h
+    simp only [Args.relabel, rgArgs, h, rgArgs_relabel f g rest]
+theorem rgCases_relabel (f g : Nat → Nat) : ∀ (cs : Cases), rgCases (cs.relabel f g) = (rgCases cs).relabel f g
+  | .one k b => by
+    have h := rg_relabel f g b none
+    simp only [relabelCtx, Option.map_none] at h
+    simp only [Cases.relabel, rgCases, h]
+  | .cons k b rest => by
+    have h := rg_relabel f g b none
+    simp only [relabelCtx, Option.map_none] at h
+    simp only [Cases.relabel, rgCases, h, rgCases_relabel f g rest]
+theorem rgBlk_relabel (f g : Nat → Nat) : ∀ (b : Blk), rgBlk (b.relabel f g) = (rgBlk b).relabel f g
+  | .fin ss e => by
+    have h := rg_relabel f g e none
+    simp only [relabelCtx, Option.map_none] at h
+    simp only [Blk.relabel, rgBlk, h, rgStmts_relabel f g ss]
+  | .noFin ss => by simp only [Blk.relabel, rgBlk, rgStmts_relabel f g ss]
+theorem rgStmts_relabel (f g : Nat → Nat) : ∀ (ss : Stmts), rgStmts (ss.relabel f g) = (rgStmts ss).relabel f g
+  | .nil => by simp only [Stmts.relabel, rgStmts]
+  | .letS k e rest => by
+    have h := rg_relabel f g e none
+    simp only [relabelCtx, Option.map_none] at h
+    simp only [Stmts.relabel, rgStmts, h, rgStmts_relabel f g rest]
+  | .exprS e rest => by
+    have h := rg_relabel f g e none
+    simp only [relabelCtx, Option.map_none] at h
+    simp only [Stmts.relabel, rgStmts, h, rgStmts_relabel f g rest]
+end
+
+mutual
+theorem relabel_inverse (f g f' g' : Nat → Nat) (hf : ∀ x, f' (f x) = x) (hg : ∀ x, g' (g x) = x) :
+    ∀ e : Expr, (e.relabel f g).relabel f' g' = e
+  | .atom a => by simp [Expr.relabel, hf]
+  | .tuple e es => by simp [Expr.relabel, relabel_inverse f g f' g' hf hg e, relabelArgs_inverse f g f' g' hf hg es]
+  | .block b => by simp [Expr.relabel, relabelBlk_inverse f g f' g' hf hg b]
+  | .post e p fld => by simp [Expr.relabel, relabel_inverse f g f' g' hf hg e]
+  | .call0 fn => by simp [Expr.relabel, relabel_inverse f g f' g' hf hg fn]
+  | .call fn args => by simp [Expr.relabel, relabel_inverse f g f' g' hf hg fn, relabelArgs_inverse f g f' g' hf hg args]
+  | .unary u e => by simp [Expr.relabel, relabel_inverse f g f' g' hf hg e]
+  | .binary o l r => by simp [Expr.relabel, relabel_inverse f g f' g' hf hg l, relabel_inverse f g f' g' hf hg r]
+  | .ifElse c t e => by simp [Expr.relabel, relabel_inverse f g f' g' hf hg c, relabelBlk_inverse f g f' g' hf hg t, relabelBlk_inverse f g f' g' hf hg e]
+  | .matchE m cs => by simp [Expr.relabel, relabel_inverse f g f' g' hf hg m, relabelCases_inverse f g f' g' hf hg cs]
+  | .lambda k b => by simp [Expr.relabel, hg, relabel_inverse f g f' g' hf hg b]
+theorem relabelArgs_inverse (f g f' g' : Nat → Nat) (hf : ∀ x, f' (f x) = x) (hg : ∀ x, g' (g x) = x) :
+    ∀ as : Args, (as.relabel f g).relabel f' g' = as
+  | .one e => by simp [Args.relabel, relabel_inverse f g f' g' hf hg e]
+  | .cons e rest => by simp [Args.relabel, relabel_inverse f g f' g' hf hg e, relabelArgs_inverse f g f' g' hf hg rest]
+theorem relabelCases_inverse (f g f' g' : Nat → Nat) (hf : ∀ x, f' (f x) = x) (hg : ∀ x, g' (g x) = x) :
+    ∀ cs : Cases, (cs.relabel f g).relabel f' g' = cs
+  | .one k b => by simp [Cases.relabel, hg, relabel_inverse f g f' g' hf hg b]
+  | .cons k b rest => by simp [Cases.relabel, hg, relabel_inverse f g f' g' hf hg b, relabelCases_inverse f g f' g' hf hg rest]
+theorem relabelBlk_inverse (f g f' g' : Nat → Nat) (hf : ∀ x, f' (f x) = x) (hg : ∀ x, g' (g x) = x) :
+    ∀ b : Blk, (b.relabel f g).relabel f' g' = b
+  | .fin ss e => by simp [Blk.relabel, relabelStmts_inverse f g f' g' hf hg ss, relabel_inverse f g f' g' hf hg e]
+  | .noFin ss => by simp [Blk.relabel, relabelStmts_inverse f g f' g' hf hg ss]
+theorem relabelStmts_inverse (f g f' g' : Nat → Nat) (hf : ∀ x, f' (f x) = x) (hg : ∀ x, g' (g x) = x) :
+    ∀ ss : Stmts, (ss.relabel f g).relabel f' g' = ss
+  | .nil => by simp [Stmts.relabel]
+  | .letS k e rest => by simp [Stmts.relabel, hg, relabel_inverse f g f' g' hf hg e, relabelStmts_inverse f g f' g' hf hg rest]
+  | .exprS e rest => by simp [Stmts.relabel, relabel_inverse f g f' g' hf hg e, relabelStmts_inverse f g f' g' hf hg rest]
+end
+
+/-- **`regroup_relabel_commute`**: renaming commutes with the formatter's regrouping —
+`regroup (rename e) = rename (regroup e)` for every expression and every relabelling. -/
+theorem regroup_relabel_commute (f g : Nat → Nat) (e : Expr) :
+    regroup (e.relabel f g) = (regroup e).relabel f g := by
+  have := rg_relabel f g e none
+  simpa [regroup, relabelCtx] using this
+
+/-- **`rename_back_restores_formatted`**: formatting the renamed tree, reading it back, renaming back
+with the inverse relabelling and formatting again yields exactly the formatted original: on the
+model, "rename back restores the (formatted) original" is a theorem. -/
+theorem rename_back_restores_formatted (f g f' g' : Nat → Nat) (hf : ∀ x, f' (f x) = x) (hg : ∀ x, g' (g x) = x)
+    (e : Expr) :
+    parseE (printE (e.relabel f g)) = some ((regroup e).relabel f g) ∧
+    ((regroup e).relabel f g).relabel f' g' = regroup e := by
+  refine ⟨by rw [renamed_roundtrip, regroup_relabel_commute], ?_⟩
+  exact relabel_inverse f g f' g' hf hg (regroup e)
+
+/-- non-vacuity: a tree the formatter really regroups (`a + (b + c)`), renamed -/
+example : regroup ((Expr.binary .plus (.atom 0) (.binary .plus (.atom 1) (.atom 2))).relabel (· + 10) id)
+    = .binary .plus (.binary .plus (.atom 10) (.atom 11)) (.atom 12) := by decide
+example : (regroup (Expr.binary .plus (.atom 0) (.binary .plus (.atom 1) (.atom 2)))).relabel (· + 10) id
+    = .binary .plus (.binary .plus (.atom 10) (.atom 11)) (.atom 12) := by decide
 
 example : parseE (printE ((Expr.binary .plus (.atom 0) (.lambda 3 (.atom 0))).relabel (· + 10) (· + 20)))
     = some (.binary .plus (.atom 10) (.lambda 23 (.atom 10))) := by decide
